@@ -134,6 +134,9 @@ def count_targets_model(it: Interp) -> Any:
 
 def sample_positive(e: Any) -> Optional[bool]:
     e = sp.sympify(e)
+    # output lengths floor(...) of a valid convolution are >= 0 (out_size >= 1)
+    for i, fl in enumerate(sorted(e.atoms(sp.floor), key=str)):
+        e = e.subs(fl, sp.Symbol(f"floor_{i}", integer=True, nonnegative=True))
     if e.is_positive:
         return True
     if e.is_nonpositive:
